@@ -13,6 +13,7 @@ import (
 	"strconv"
 	"strings"
 	"sync"
+	"sync/atomic"
 	"time"
 )
 
@@ -108,6 +109,14 @@ func verifDir() string {
 		return d
 	}
 	return "/verif"
+}
+
+// outDir is where evidence and replays are written (VERIF_OUT, default = verifDir()).
+func outDir() string {
+	if d := os.Getenv("VERIF_OUT"); d != "" {
+		return d
+	}
+	return verifDir()
 }
 
 func tierDeadline(tier string) time.Duration {
@@ -381,7 +390,7 @@ func coordinate(c *Check, tier string) int {
 		}
 	}
 	for _, v := range violations {
-		dir := filepath.Join(verifDir(), "replays", c.Prop)
+		dir := filepath.Join(outDir(), "replays", c.Prop)
 		os.MkdirAll(dir, 0o755)
 		path := filepath.Join(dir, fmt.Sprintf("%016x.json", hash64(v.Clause, v.Sig, string(v.Replay))))
 		js, _ := json.MarshalIndent(v, "", " ")
@@ -433,9 +442,9 @@ func coordinate(c *Check, tier string) int {
 	ev := evidence{PropertyID: c.Prop, Tier: tier, Seed: seed, Level: "model_checking", Coverage: cov,
 		Assumptions: c.Assumptions, WallS: wall, Violations: len(violations)}
 	if code != 2 {
-		os.MkdirAll(filepath.Join(verifDir(), "evidence"), 0o755)
+		os.MkdirAll(filepath.Join(outDir(), "evidence"), 0o755)
 		js, _ := json.MarshalIndent(ev, "", " ")
-		if err := os.WriteFile(filepath.Join(verifDir(), "evidence", c.Prop+".json"), append(js, '\n'), 0o644); err != nil {
+		if err := os.WriteFile(filepath.Join(outDir(), "evidence", c.Prop+".json"), append(js, '\n'), 0o644); err != nil {
 			fmt.Fprintf(os.Stderr, "HARNESS-ERROR: evidence: %v\n", err)
 			return 2
 		}
@@ -458,7 +467,7 @@ func rerunDead(c *Check, tier string, wi, id int, name string) *TaskResult {
 	var lastAnn string
 	deaths := 0
 	var good *TaskResult
-	for try := 0; try < 3; try++ {
+	for try := 0; try < 2; try++ {
 		w, err := spawnWorker(c, tier, 1000+wi*10+try, true)
 		if err != nil {
 			return &TaskResult{ID: id, Err: "respawn: " + err.Error()}
@@ -470,8 +479,12 @@ func rerunDead(c *Check, tier string, wi, id int, name string) *TaskResult {
 			break
 		}
 		data, _ := os.ReadFile(w.ann)
+		if why, err := os.ReadFile(w.ann + ".why"); err == nil {
+			data = append(data, []byte(" ["+string(why)+"]")...)
+			os.Remove(w.ann + ".why")
+		}
 		w.kill()
-		if try > 0 && string(data) != lastAnn {
+		if try > 0 && strings.SplitN(string(data), " [", 2)[0] != strings.SplitN(lastAnn, " [", 2)[0] {
 			return &TaskResult{ID: id, Err: fmt.Sprintf("worker died non-deterministically in task %s (%q vs %q)", name, lastAnn, data)}
 		}
 		lastAnn = string(data)
@@ -500,6 +513,7 @@ var (
 
 // announce records the execution about to start (only when the coordinator re-runs a dead task).
 func announce(f func() string) {
+	progressTick.Add(1)
 	if !announceOn {
 		return
 	}
@@ -511,7 +525,49 @@ func announce(f func() string) {
 	annFd.WriteAt([]byte(s), 0)
 }
 
+// progressTick is bumped at the start of every execution; the watchdog kills the worker when an
+// execution hangs (no tick for 20 s) or the process grows beyond 8 GiB (runaway allocation in the code
+// under test). The coordinator then re-runs the task with announcements to attribute the death.
+var progressTick atomic.Int64
+
+func workerAbort(reason string) {
+	fmt.Fprintf(os.Stderr, "WORKER-ABORT: %s\n", reason)
+	if announceFile != "" {
+		os.WriteFile(announceFile+".why", []byte(reason), 0o644)
+	}
+	cleanupScratch()
+	os.Exit(3)
+}
+
+func watchdog() {
+	last, lastChange := int64(-1), time.Now()
+	busy := false
+	for {
+		time.Sleep(250 * time.Millisecond)
+		if data, err := os.ReadFile("/proc/self/statm"); err == nil {
+			f := strings.Fields(string(data))
+			if len(f) > 1 {
+				if pages, _ := strconv.ParseInt(f[1], 10, 64); pages*4096 > 8<<30 {
+					workerAbort(fmt.Sprintf("memory: resident set %d MiB exceeds 8 GiB (runaway allocation)", pages*4096>>20))
+				}
+			}
+		}
+		cur := progressTick.Load()
+		busy = workerBusy.Load()
+		if cur != last || !busy {
+			last, lastChange = cur, time.Now()
+			continue
+		}
+		if time.Since(lastChange) > 20*time.Second {
+			workerAbort("hang: one execution made no progress for 20 s (infinite loop or real blocking in the code under test)")
+		}
+	}
+}
+
+var workerBusy atomic.Bool
+
 func workerMain(c *Check, tier string) {
+	go watchdog()
 	if pf := os.Getenv("VERIF_CPUPROFILE"); pf != "" {
 		f, _ := os.Create(pf + "." + os.Getenv("VERIF_WORKER_ID"))
 		pprof.StartCPUProfile(f)
@@ -531,6 +587,7 @@ func workerMain(c *Check, tier string) {
 			os.Exit(2)
 		}
 		res := &TaskResult{ID: id}
+		workerBusy.Store(true)
 		func() {
 			defer func() {
 				if r := recover(); r != nil {
@@ -539,6 +596,7 @@ func workerMain(c *Check, tier string) {
 			}()
 			tasks[id].Fn(res)
 		}()
+		workerBusy.Store(false)
 		js, _ := json.Marshal(res)
 		out.WriteString("RESULT ")
 		out.Write(js)
